@@ -4,6 +4,7 @@ import Qsx.Model.Num
 import Qsx.Model.BasisFile
 import Qsx.Model.Spec
 import Qsx.Model.Session
+import Qsx.Model.Log
 open Qsx
 
 def hexVal (c : Char) : Option Nat :=
@@ -293,6 +294,11 @@ def answer (cx : Ctx) (toks : List String) : Ctx × List String :=
         let s' := Qsx.Session.step acc.1 op
         (s', acc.2 ++ [s!"s basis={b2s s'.basis} cache={b2s s'.cache} factorok={b2s s'.factorok} qstatus={s'.qstatus}"])) (s0, [])
       (cx, out)
+  | ["writers"] =>
+    -- direct writers of the generated table that are not allowed sites
+    let bad := Qsx.Gen.directWriters.filter (fun e => !Qsx.Log.allowedSite e)
+    (cx, [s!"writers {Qsx.Gen.directWriters.length} {bad.length}"] ++
+         bad.map fun e => s!"site {e.1} {e.2.1} {e.2.2.1} {e.2.2.2.1} {e.2.2.2.2}")
   | "tointernal" :: rest =>
     let r : Option (List String) := (do
       let L ← pLP cx
